@@ -142,6 +142,7 @@ Section C17.
     destruct (push_to_block2 E p o c) as [[o1|o1] c1]; cbn [fst res_obj] in *; [|exact K].
     destruct (a_close_obj p); [|exact K].
     destruct (r_state o1); try exact K.
+    destruct (r_writer o1); [|exact K].
     pose proof (ckc_error o1 true c1) as K2. destruct (error o1 true c1) as [o2 c2]. cbn [fst res_obj] in *.
     exact (ckc_trans _ _ _ K K2).
   Qed.
